@@ -6,7 +6,7 @@ import ast
 from sa import flow
 from sa.model import AnalysisError, dotted, names_in, unparse
 from sa.rules import LEVEL_TEXT, rule
-from sa.rules.util import closure_functions, is_self_attr, iter_body_nodes, locals_defined_by, one_local, own_methods, pfind, pmatch, qual
+from sa.rules.util import callee, closure_functions, is_self_attr, iter_body_nodes, locals_defined_by, one_local, own_methods, pfind, pmatch, qual
 
 LEVEL_TEXT["C03"] = (
     "Decides structural necessary conditions of C03: which comparison operators may be handed to the file reader "
@@ -171,6 +171,47 @@ LEFT_OK = {"left", "inner", "leftsemi"}
 RIGHT_OK = {"right", "inner"}
 
 
+def _side_helper_info(model, merge, call):
+    """`self.<helper>(cols)` whose body appends the literals 'left' / 'right' to its result: for each literal, is the append
+    under `cols.issubset(self.<side>.columns)` and under the NEGATED suffix-rename test that mentions the other side's columns"""
+    t = callee(model, merge.module, merge, call)
+    if t is None:
+        return {}
+    hfn = t[2]
+    info = {}
+    for n in ast.walk(hfn):
+        if isinstance(n, ast.Call) and isinstance(n.func, ast.Attribute) and n.func.attr in ("append", "add") and n.args and isinstance(n.args[0], ast.Constant) and n.args[0].value in ("left", "right"):
+            side = n.args[0].value
+            other = "right" if side == "left" else "left"
+            p = flow.point_of(hfn, n)
+            facts = list(flow.facts(p))
+            sub = any(pol and f".issubset(self.{side}.columns)" in unparse(t_) for t_, pol in facts)
+            guard = False
+            for g, pol in p.guards:
+                txt = ast.unparse(g)
+                neg = (not pol) or (pol and isinstance(g, ast.UnaryOp) and isinstance(g.op, ast.Not))
+                if neg and (f"{side}_suffix" in txt or "suffixes" in txt) and f"self.{other}.columns" in txt:
+                    guard = True
+            info[side] = {"subset": sub, "suffix_guard": guard, "fn": hfn.name}
+    return info
+
+
+def _side_of_fact(model, merge, fn, defs, t, at):
+    """('left'|'right', info) if the positive fact ``t`` says 'the predicate goes to that input'"""
+    s = unparse(t)
+    for side in ("left", "right"):
+        if f".issubset(self.{side}.columns)" in s:
+            return side, None
+    if isinstance(t, ast.Compare) and len(t.ops) == 1 and isinstance(t.ops[0], ast.In) and isinstance(t.left, ast.Constant) and t.left.value in ("left", "right"):
+        src = defs.expand(t.comparators[0], at=at)
+        for c in ast.walk(src):
+            if isinstance(c, ast.Call):
+                info = _side_helper_info(model, merge, c)
+                if t.left.value in info:
+                    return t.left.value, info[t.left.value]
+    return None, None
+
+
 @rule(
     "R03b",
     ["C03", "C01"],
@@ -194,12 +235,13 @@ def r03b(ctx):
             continue
         kinds = {e.value for e in kinds.elts}
         side = None
+        bdefs = flow.Defs(fn)
         for t, pol in flow.facts(p):
-            s = unparse(t)
-            if pol and ".issubset(self.left.columns)" in s:
-                side = "left"
-            elif pol and ".issubset(self.right.columns)" in s:
-                side = "right"
+            if not pol:
+                continue
+            sd, info = _side_of_fact(model, merge, fn, bdefs, t, p.stmt)
+            if sd is not None and (info is None or info["subset"]):
+                side = sd
         if side is None:
             ctx.bad("_merge.Merge._filter_passthrough_available:how:unguarded", merge.module.loc(p.stmt), f"`{unparse(v)}` is not under a 'predicate columns subset of one input' test")
             continue
@@ -217,6 +259,11 @@ def r03b(ctx):
     pc = one_local(fn, "self._predicate_columns(V__)", "predicate columns of Merge._filter_passthrough_available")
     ok_mixed = any(
         isinstance(p.stmt.value, ast.Constant) and p.stmt.value.value is False and any(f"len({pc}) > 0" in unparse(t) and pol for t, pol in flow.facts(p))
+        for p in rets
+    ) or any(
+        isinstance(p.stmt.value, ast.Constant)
+        and p.stmt.value.value is False
+        and {"left", "right"} <= {_side_of_fact(model, merge, fn, flow.Defs(fn), t, p.stmt)[0] for t, pol in flow.facts(p) if not pol and isinstance(t, ast.Compare)}
         for p in rets
     )
     (ctx.ok if ok_mixed else ctx.unclassified)("_merge.Merge._filter_passthrough_available:mixed-sides", merge.module.loc(fn), "predicate spanning both inputs is refused" if ok_mixed else "refusal of mixed-side predicates not recognised")
@@ -250,6 +297,18 @@ def r03c(ctx):
         other = "right" if side == "left" else "left"
         p = flow.point_of(fn, call)
         facts = list(flow.facts(p))
+        cdefs = flow.Defs(fn)
+        via = [_side_of_fact(model, merge, fn, cdefs, t, p.stmt) for t, pol in facts if pol and isinstance(t, ast.Compare)]
+        via = [(sd, info) for sd, info in via if sd == side and info is not None]
+        if via:
+            n += 1
+            cid = f"_merge.Merge._simplify_up:filter-to-{side}"
+            info = via[0][1]
+            if info["subset"] and info["suffix_guard"]:
+                ctx.ok(cid, merge.module.loc(call), f"under the side decision of {info['fn']} (subset test and suffix-rename guard)")
+            else:
+                ctx.bad(cid, merge.module.loc(call), f"predicate moved to the {side} input on the word of {info['fn']}, which appends '{side}' without " + ("the subset-of-side test" if not info["subset"] else f"the suffix guard (a {side} column renamed by suffixing collides with a {other} column of the predicate's name)"))
+            continue
         sub = any(pol and f".issubset(self.{side}.columns)" in unparse(t) for t, pol in facts)
         suffix_names = {f"{side}_suffix", "suffixes"}
         guard = any(
@@ -739,6 +798,28 @@ def r03j(ctx):
         ctx.ok(cid, *ok)
     else:
         ctx.bad(cid, c.module.loc(fn), "the join's legality test walks the predicate without refusing nodes that are not Elemwise (only a reduction that IS the right operand of the top comparison is refused): m[m.a > m.a.mean() * 1.0], m[m.a - m.a.mean() > 0], m[m.a.cumsum() > 60] are pushed into one input of the join, where the reduction / cumulative value is taken over other rows")
+    # (b) the And-unwrapping loop tests every conjunct it skips: Merge._simplify_up re-evaluates the right conjunct on the rows that
+    # survive the left one
+    loops = [w for w in ast.walk(fn) if isinstance(w, ast.While) and pmatch("isinstance(V_p, And)", w.test) is not None]
+    for w in loops:
+        pv = pmatch("isinstance(V_p, And)", w.test)["V_p"]
+        tested = any(isinstance(i_, ast.If) and f"{pv}.right" in ast.unparse(i_.test) and any(isinstance(r, ast.Return) and (r.value is None or (isinstance(r.value, ast.Constant) and r.value.value in (None, False))) for r in ast.walk(i_)) for i_ in ast.walk(w))
+        cid2 = "_merge.Merge._filter_passthrough_available:conjuncts-row-wise"
+        if tested:
+            ctx.ok(cid2, c.module.loc(w), f"every skipped conjunct ({pv}.right) is tested before the conjunction is split")
+        else:
+            ctx.bad(cid2, c.module.loc(w), f"the loop descends to the left-most conjunct without looking at `{pv}.right`: Merge._simplify_up then splits filter(A & B) into stacked filters and evaluates B on the rows that survive A - a reduction in B (m[(m.k > 1) & (m.w > m.w.mean())]) is taken over fewer rows")
+    # (c) decision and action agree on the input a predicate goes to: if the action looks at the suffixes (a shared column that got a
+    # suffix on one side names the OTHER input's column), the decision must as well
+    up = model.method(c, "_simplify_up", own=True).node
+    filt = [i_ for i_ in ast.walk(up) if isinstance(i_, ast.If) and "Filter" in ast.unparse(i_.test)]
+    act_text = " ".join(ast.unparse(f) for _, _, f in closure_functions(model, c.module, c, up, depth=1) if f is not fn) if filt else ""
+    dec_text = " ".join(ast.unparse(f) for _, _, f in fns)
+    cid3 = "_merge.Merge:filter-side-agreement"
+    if "suffixes" in act_text and "suffixes" not in dec_text:
+        ctx.bad(cid3, c.module.loc(fn), "Merge._simplify_up picks the input for a pushed predicate after looking at the suffixes, Merge._filter_passthrough_available decides the join-direction rule from the column names alone: with suffixes=('_l', '') a predicate on the RIGHT input's column is judged by the rule for the left input and moved into the right input of a LEFT join (unmatched left rows survive the filter)")
+    else:
+        ctx.ok(cid3, c.module.loc(fn), "decision and action use the same notion of which input a column belongs to")
 
 
 # ---------------------------------------------------------------------------------------------
@@ -780,3 +861,30 @@ def r03k(ctx):
             else:
                 ctx.bad(cid, c.module.loc(call), f"`{unparse(call)}` passes a hand-translated predicate that never gets the general `.substitute(self, self.frame)`: every term other than the translated column keeps reading {c.name}'s output (other labels / divisions than the filtered input) - assertion error or, with unknown divisions, other rows")
     ctx.floor("explicit-predicate filter simplifications", n, 2)
+    # (b) a column of the operator's OWN output that is translated by hand is named from the output schema (self.columns) or from
+    # every parameter that can rename it - not guessed from the input's metadata (reset_index(name=...), an input that already has
+    # a column "index" -> "level_0")
+    m_ = 0
+    for c, m in own_methods(model, "_simplify_up"):
+        fn = m.node
+        try:
+            params = model.parameters(c)
+        except Exception:  # noqa: BLE001
+            continue
+        if "name" not in params:
+            continue
+        defs = flow.Defs(fn)
+        for call in (x for x in ast.walk(fn) if isinstance(x, ast.Call) and pmatch("Projection(self, V_x)", x) is not None):
+            p = flow.point_of(fn, call)
+            if p is None or not any(pol and "Filter" in unparse(t) for t, pol in flow.facts(p)):
+                continue
+            m_ += 1
+            arg = call.args[1]
+            chain = [arg] + (_def_chain(defs, arg.id, call) if isinstance(arg, ast.Name) else [])
+            text = " ".join(ast.unparse(v) for v in chain)
+            cid = f"{qual(c, fn)}:own-output-column:{unparse(arg)[:40]}"
+            if "self.columns" in text or "self.name" in text or "operand('name')" in text:
+                ctx.ok(cid, c.module.loc(call), "the translated column is named from the operator's own schema / name parameter")
+            else:
+                ctx.bad(cid, c.module.loc(call), f"`{unparse(call)}` names a column of {c.name}'s OUTPUT from the input's metadata alone (`{text[:80]}`), ignoring the `name` parameter and pandas' collision renaming: with reset_index(name=...) or an input that already has that column the term is not translated and keeps reading the reset frame")
+    ctx.floor("hand-translated own-output columns", m_, 1)
